@@ -268,18 +268,23 @@ class Runner:
         ctx = Ctx(bins["ovf"], model_bin, bins.get("wrap"))
         try:
             stop = False
+            deferred = []
             if self.replay:
                 doc = json.load(open(self.replay))
                 stream = [doc["case"]]
             else:
+                deferred = []
                 for kind, text in prop.static_checks(ctx):
+                    if kind == "corr":
+                        # a broken static tie (e.g. an unaccounted panic site): search for a failing input
+                        # with the normal run first; reported at the end if none is found
+                        deferred.append(text)
+                        continue
                     path = os.path.join(VERIF, "replays", "%s-static.json" % prop.id)
                     os.makedirs(os.path.dirname(path), exist_ok=True)
-                    json.dump({"property": prop.id, "kind": kind, "detail": text,
-                               "theorems_no_longer_tied_to_the_code": build.obligations(prop.id)["theorems"]},
+                    json.dump({"property": prop.id, "kind": "property-violated-by-implementation (static obligation)", "detail": text},
                               open(path, "w"), indent=1)
-                    tail = " no-failing-input-found" if kind == "corr" else ""
-                    print("VIOLATION property=%s replay=%s%s" % (prop.id, path, tail))
+                    print("VIOLATION property=%s replay=%s" % (prop.id, path))
                     self.violations.append(path)
                     stop = True
                 stream = self._stream(rng)
@@ -292,6 +297,27 @@ class Runner:
                     elif ev.corr:
                         if self.report_corr(ctx, case, ev, known, rng):
                             break
+            if deferred and not self.violations:
+                # extra budget of the thorough generator, looking for an input on which the property fails
+                extra = random.Random(self.seed ^ 0xFACE)
+                n = 0
+                for case in prop.cases(extra, "thorough"):
+                    n += 1
+                    if n > 4000 or time.time() - self.t0 > 300:
+                        break
+                    ev = self.run_case(ctx, case)
+                    if ev.judge and self.report_judge(ctx, case, ev, known):
+                        break
+                if not self.violations:
+                    path = os.path.join(VERIF, "replays", "%s-static.json" % prop.id)
+                    os.makedirs(os.path.dirname(path), exist_ok=True)
+                    json.dump({"property": prop.id, "kind": "correspondence-broken (static tie)",
+                               "broken": deferred,
+                               "theorems_no_longer_tied_to_the_code": build.obligations(prop.id)["theorems"],
+                               "note": "no input was found on which the property itself fails; the property is no longer shown to hold"},
+                              open(path, "w"), indent=1)
+                    print("VIOLATION property=%s replay=%s no-failing-input-found" % (prop.id, path))
+                    self.violations.append(path)
             self.restarts = ctx.impl.restarts
         finally:
             ctx.close()
